@@ -185,6 +185,6 @@ pub fn spec() -> PropSpec {
         rule: "crash-point enumeration: acyclic jobs (chain, shuffle, group_by+fold, two-phase fold, diamond, inner and outer join, two sinks) x position of the faulty operator (first block, later block, right before the sink, upstream/downstream of the aggregation, one join input, one branch) x replica 0/1 x k-th element (1..3) x parallelism / batch mode / capacity (thorough: adaptive batching and a 1+1 remote layout) x every schedule within the deviation bound: if the injected panic fired, execute_blocking must fail (on every host), no sink downstream of the failed replica may publish anything, any other sink only its complete result, and every remaining task must finish (a worker left blocked is a detected deadlock); if it did not fire the job must give its normal result; non-trivial = every scenario (6 input elements)",
         assumptions: &["the fault is a panic in a harness operator placed in the operator chain (stands for a panicking user closure)", "deviation bound as reported"],
         exhaustive_when_uncapped: false,
-        budget_s: (55, 2400),
+        budget_s: (55, 1500),
     }
 }
